@@ -1088,7 +1088,7 @@ func (s *sink) handleReqRespBatch(
 		fallthrough //nolint:gocritic // easier to read this way
 
 	case kerr.IsRetriable(err) &&
-		!failUnknown &&
+		(!failUnknown || batch.unsureIfProduced) && // as with the retry limit (and as bumpRepeatedLoadErr does), the unknown limit cannot fail a batch that may already be in the log
 		err != kerr.CorruptMessage &&
 		(batch.tries.Load() <= s.cl.cfg.recordRetries || batch.unsureIfProduced): // we need to bypass the retry limit if we are not sure of the state
 		if debug {
